@@ -36,17 +36,24 @@ func transformReqs(
 
 	newReqs := make(map[string]project.RequirementConfig)
 
-	// First add requirements that existed in the old project.
-	for _, v := range newVersions {
-		if v.Path == "" {
-			continue
+	// First add requirements that existed in the old project. A name keeps its own requirement if that
+	// requirement is still listed; otherwise it follows the greatest listed version of its project.
+	for name, r := range root.Requirements {
+		found, best := false, module.Version{}
+		for _, v := range newVersions {
+			if v.Path == "" || v.Path != r.Path {
+				continue
+			}
+			if v.Version == r.Version {
+				found, best = true, v
+				break
+			}
+			if !found || cmpVersion(best.Version, v.Version) < 0 {
+				found, best = true, v
+			}
 		}
-		names, ok := oldProjects[v.Path]
-		if !ok {
-			continue
-		}
-		for _, n := range names {
-			newReqs[n] = versionRequirement(v)
+		if found {
+			newReqs[name] = versionRequirement(best)
 		}
 	}
 
